@@ -176,3 +176,28 @@ text("c19-v2c-mpm-skips-sm", "C19", "puresnmp_plugins/mpm/v2c.py", "        msg 
 text("c19-trapinfo-oid-index", "C19", PY, "        return self.raw_trap.value.varbinds[1].value.pythonize()  # type: ignore", "        return self.raw_trap.value.varbinds[0].value.pythonize()  # type: ignore")
 text("c19-trapinfo-values-slice", "C19", PY, "        for varbind in self.raw_trap.value.varbinds[2:]:", "        for varbind in self.raw_trap.value.varbinds[3:]:")
 text("c19-s-unpack-form", "C19", RAW, "        as_sequence = Sequence.decode(packet.data)\n        version = cast(Integer, as_sequence[0])\n\n        mproc = mpm.create(version.value, handler, lcd)", "        as_sequence = Sequence.decode(packet.data)\n        version, _, _ = as_sequence\n\n        mproc = mpm.create(version.pythonize(), handler, lcd)", expect="silent")
+
+# ---------------------------------------------------------------- C01
+patch("rev-D8-unsorted-roots", "C01", "578e45a-fix__multiwalk_requests_its_root_OIDs_in_ascending_order.diff")
+text("c01-no-containment", "C01", RAW, "            if not any(containment) or varbind.oid in yielded:", "            if varbind.oid in yielded:")
+text("c01-no-dedup", "C01", RAW, "            if not any(containment) or varbind.oid in yielded:", "            if not any(containment):")
+text("c01-reversed-in", "C01", RAW, "            containment = [varbind.oid in _ for _ in requested_oids]", "            containment = [_ in varbind.oid for _ in requested_oids]")
+text("c01-all-instead-of-any", "C01", RAW, "            if not any(containment) or varbind.oid in yielded:", "            if not all(containment) or varbind.oid in yielded:")
+text("c01-no-seen-add", "C01", RAW, "            yielded.add(varbind.oid)\n            yield varbind", "            yield varbind")
+text("c01-seen-per-round", "C01", RAW, "            for varbind in deduped_varbinds(oids, grouped_oids, yielded):\n                yield varbind\n", "            for varbind in deduped_varbinds(oids, grouped_oids, set()):\n                yield varbind\n")
+text("c01-filter-by-continuation", "C01", RAW, "            for varbind in deduped_varbinds(oids, grouped_oids, yielded):\n                yield varbind\n", "            for varbind in deduped_varbinds(next_fetches, grouped_oids, yielded):\n                yield varbind\n")
+text("c01-stride-plus-one", "C01", UTIL, "        results[effective_roots[i]] = varbinds[i::n]", "        results[effective_roots[i]] = varbinds[i :: n + 1]")
+text("c01-offset-shift", "C01", UTIL, "        results[effective_roots[i]] = varbinds[i::n]", "        results[effective_roots[i]] = varbinds[i + 1 :: n]")
+text("c01-key-shift", "C01", UTIL, "        results[effective_roots[i]] = varbinds[i::n]", "        results[effective_roots[i - 1]] = varbinds[i::n]")
+text("c01-first-instead-of-last", "C01", UTIL, "        k: WalkRow(v[-1], v[-1].oid in k) for k, v in grouped_oids.items() if v", "        k: WalkRow(v[0], v[0].oid in k) for k, v in grouped_oids.items() if v")
+text("c01-unfinished-reversed", "C01", UTIL, "        k: WalkRow(v[-1], v[-1].oid in k) for k, v in grouped_oids.items() if v", "        k: WalkRow(v[-1], k in v[-1].oid) for k, v in grouped_oids.items() if v")
+text("c01-stale-loop-var", "C01", RAW, "            unfinished_oids = get_unfinished_walk_oids(grouped_oids)\n            if LOG.isEnabledFor", "            remaining = get_unfinished_walk_oids(grouped_oids)\n            if LOG.isEnabledFor")
+text("c01-batch-dropped", "C01", RAW, "        yielded: Set[ObjectIdentifier] = set()\n        for varbind in deduped_varbinds(oids, grouped_oids, yielded):\n            yield varbind\n", "        yielded: Set[ObjectIdentifier] = set()\n")
+text("c01-marker-not-cut", "C01", RAW, "        for oid, value in response_object.value.varbinds:\n            if isinstance(value, EndOfMibView):\n                break\n            output.append(VarBind(oid, value))", "        for oid, value in response_object.value.varbinds:\n            output.append(VarBind(oid, value))")
+text("c01-remap-reversed", "C01", UTIL, "            containment = [base for base in user_roots if key in base]", "            containment = [base for base in user_roots if base in key]")
+text("c01-continue-all-roots", "C01", UTIL, "        if item[1].unfinished\n", "        if item[1].unfinished or True\n")
+text("c01-unsorted-continuation", "C01", UTIL, "        for item in sorted(last_received_oids.items())\n", "        for item in last_received_oids.items()\n")
+text("c01-regroup-by-roots", "C01", RAW, "            grouped_oids = group_varbinds(\n                varbinds, next_fetches, user_roots=oids\n            )", "            grouped_oids = group_varbinds(\n                varbinds, oids, user_roots=oids\n            )")
+text("c01-reverse-within-root", "C01", RAW, "        for varbind in var:\n            containment", "        for varbind in reversed(var):\n            containment")
+text("c01-s-rename-and-genexp", "C01", RAW, "            containment = [varbind.oid in _ for _ in requested_oids]\n            if not any(containment) or varbind.oid in yielded:", "            inside = any(varbind.oid in root for root in requested_oids)\n            if not inside or varbind.oid in yielded:", expect="silent")
+text("c01-s-split-guards", "C01", RAW, "            if not any(containment) or varbind.oid in yielded:\n                LOG.debug(\n                    \"Unexpected device response: Returned VarBind %s \"\n                    \"was either not contained in the requested tree or \"\n                    \"appeared more than once. Skipping!\",\n                    varbind,\n                )\n                continue\n", "            if not any(containment):\n                continue\n            if varbind.oid in yielded:\n                continue\n", expect="silent")
